@@ -35,8 +35,8 @@ ASSUMPTIONS = ['uuid4 values are treated as an injective never-null stream (prob
                'compared, only checked non-null and pairwise distinct)',
                'user-supplied generators are represented by counting generators start + step*k with start, step > 0 '
                '(theorem ids_fresh quantifies over every injective never-null stream)',
-               'keyword names are spellings of non-referential attributes (any letter case) or the exact name of a '
-               'referential attribute; declared names are distinct after upper-casing; values are type-consistent '
+               'keyword names are spellings (any letter case) of declared attributes, referential or not; declared '
+               'names are distinct after upper-casing; values are type-consistent '
                '(Python equates False == 0 == 0.0, the model does not)',
                'MetaClass.default_value is reached through a metaclass that belongs to a metamodel (the branch '
                '`if self.metamodel` false -> None is not exercised)']
@@ -150,7 +150,7 @@ def _random_case(r, maxops):
             kws, seen = [], set()
             for nm, ty in attrs:
                 if r.random() < 0.3:
-                    sp = nm if nm == ref else respell(r, nm)
+                    sp = respell(r, nm)
                     if sp not in seen:
                         seen.add(sp)
                         kws.append([sp, _value(r, ty.upper())])
